@@ -81,6 +81,11 @@ def gen_ops(rng, tier):
         mode = rng.choice([4, 4, 5, 7, 7, 8])
         ops.append("arifile %d %d %d %d %d %d %d %d %d %d" % (rng.randrange(1 << 30), rng.randint(1, 70), rng.randint(1, 50), rng.choice([0, 0, 1, 2, 3, 7, 8, 9, 50]),
                                                              hs, vs, nc, kind, mode, rng.randrange(1, 1 << 30)))
+    # the small-Qe end of the probability-estimation table: flat image with an isolated block about every 11000 blocks, whole file
+    # byte for byte against the Lean QM encoder (which uses the Table D.3 literal), and through ent -> t81 (Lean QM decoder)
+    ops.append("arifile %d 1456 1456 0 1 1 1 8 4 %d" % (rng.randrange(1 << 30), rng.randrange(1, 1 << 30)))
+    for mode in ((4, 5, 7) if big else (4,)):
+        ops.append("ent 3 1456 1456 8 %d 8 %d 0 0 %d -1 0" % (rng.randrange(1 << 20), mode, rng.randrange(1 << 20)))
     # more than 0x7FFF consecutive end-of-band blocks: the forced emit_eobrun
     for i in range(3 if big else 1):
         ops.append("progfile %d %d %d 0 1 1 1 5 %d" % (rng.randrange(1 << 30), 1456 + 8 * rng.randrange(8), 1456 + 8 * rng.randrange(8), 0 if i == 0 else rng.randrange(1, 1 << 30)))
@@ -101,6 +106,11 @@ def stage2(ops, model_lines, res_by_v):
 def judge(op, R, M):
     if op.startswith("t81 ") and M.startswith("err "):
         return "fail t81: a stream written by the compressor violates T.81 as read by the independent decoder: %s (libjpeg-turbo: %s)" % (M[4:], R[:80])
+    if op.startswith("t81 ") and not R.startswith("skip") and not M.startswith("skip") and " ".join(M.split()) != " ".join(R.split()):
+        # the Lean reader is the property's independent decoder: different tables / geometry / coefficients for a stream the real
+        # compressor wrote is the violation itself, with the stream as the failing input
+        return ("fail t81: the decoder written from T.81 recovers from a stream the compressor wrote something else than libjpeg-turbo's "
+                "own decoder: independent '%s' vs libjpeg-turbo '%s'" % (M[:90], R[:90]))
     return None
 
 
